@@ -53,6 +53,18 @@ def gen_cases(ctx):
         size = rng.choice([16384, 16384, 32768, 50000, 65536, 65536, 100000, 262144])
         chunks = [data[i:i + size] for i in range(0, len(data), size)]
         out.append((frames, tail, chunks, 'read-sized'))
+    # very many tiny frames completed by ONE read (a peer that pipelines hundreds of requests; a 16 KiB read of 6-20 byte
+    # frames): every one of them is yielded by the iteration that follows the feed
+    for _ in range(ctx.n(6, 60)):
+        n = rng.choice([257, 300, 600, 1000, 1500])
+        frames = []
+        for i in range(n):
+            frames.append(bytes(wire.build(rng.choice([4, 5]), [b'', rng.choice([b'', b'c', b'ch'])])) if rng.random() < 0.8
+                          else bytes(wire.build(3, [b'i', b'c', bytes([i % 251])])))
+        data = b''.join(frames)
+        size = rng.choice([len(data), len(data), 16384, 4096])
+        chunks = [data[i:i + size] for i in range(0, len(data), size)]
+        out.append((frames, b'', chunks, 'many-small'))
     if ctx.scale == 1:
         # one multi-MiB stream (sampled cuts), run-length payloads
         fr = [bytes(wire.build(3, [b'id', b'ch', bytes([7]) * (wire.limit(3) - 11)])),
